@@ -22,6 +22,7 @@ import (
 	"time"
 
 	"github.com/Comcast/sheens/core"
+	"github.com/Comcast/sheens/interpreters/ecmascript"
 	"github.com/Comcast/sheens/match"
 )
 
@@ -213,7 +214,7 @@ var (
 	isoGlobals = []string{"gx", "gy"}
 	isoProtos  = []string{"pp", "qq"}
 	isoExtras  = []string{"zz", "yy"}
-	isoMembers = []string{"ctx", "props", "bindings", "out", "zz", "yy"}
+	isoMembers = []string{"ctx", "props", "bindings", "out", "zz", "yy", "gensym", "match", "exit"} // the last three: extended only
 	isoProtoTs = []string{"Object", "Array", "String"}
 )
 
@@ -485,6 +486,12 @@ func isoCompile(s *JScript) (*isoProgram, error) {
 	return isoCompileSource(s.JS())
 }
 
+var isoOtherHost = func() core.InterpretersMap {
+	ext := ecmascript.NewInterpreter()
+	ext.Extended = true
+	return core.InterpretersMap{"ecmascript": ext}
+}()
+
 func isoCompileSource(src string) (*isoProgram, error) {
 	p := &isoProgram{src: src}
 	ctx := context.Background()
@@ -493,6 +500,10 @@ func isoCompileSource(src string) (*isoProgram, error) {
 		return nil, err
 	}
 	p.compiled = c
+	// another host in this process has compiled the same source under the same interpreter name with a differently
+	// equipped interpreter (interpreters.Standard registers the extended one as "goja", a debugging host may register
+	// anything): what that host got is its own
+	(&core.ActionSource{Interpreter: "ecmascript", Source: p.src}).Compile(ctx, isoOtherHost)
 	as := &core.ActionSource{Interpreter: "ecmascript", Source: p.src}
 	a, err := as.Compile(ctx, interpreters())
 	if err != nil {
